@@ -145,7 +145,7 @@ def rule_d(prog, rep):
     where = fi.fq
     common_t = None
     # stores of the where branch and appends of the scan branch
-    wh = [e for e in I.events if e.kind == "store_sub" and any(b.op == "alloc" and b.args[0] == "dict" for b in tm.alts(e["base"])) and tm.contains(e["value"], lambda x: x.op == "call" and tm.callee_name(x) == "numpy.where")]
+    wh = [e for e in I.events if e.kind == "store_sub" and any(b.op == "alloc" and b.args[0] == "dict" for b in tm.alts(e["base"])) and tm.contains(e["value"], lambda x: x.op == "call" and tm.callee_name(x) in ("numpy.where", "numpy.flatnonzero", "numpy.nonzero", ".nonzero"))]
     sc = [e for e in I.events if e.kind == "call" and e["method"] == "append" and e["recv"] is not None and e["recv"].op == "sub"
           and any(b.op == "call" and tm.callee_name(b) == "collections.defaultdict" for b in tm.alts(e["recv"].args[0]))]
     if len(wh) != 2 or len(sc) != 2:
